@@ -385,10 +385,10 @@ pub fn run(ctx: &Ctx) {
             ctx,
             &fam,
             &m,
-            ExploreOpts { max_depth: depth, wall_cap: Duration::from_secs(ctx.tier.pick(40, 900)), state_cap: ctx.tier.pick(400_000, 5_000_000), dedup: true },
+            ExploreOpts { max_depth: depth, wall_cap: Duration::from_secs(ctx.tier.pick(400, 900)), state_cap: ctx.tier.pick(400_000, 5_000_000), dedup: true },
         );
         if algo == 1 {
-            explore::audit_dedup(ctx, &fam, &m, &res, ctx.tier.pick(6, 7), Duration::from_secs(ctx.tier.pick(20, 300)));
+            explore::audit_dedup(ctx, &fam, &m, &res, ctx.tier.pick(6, 7), Duration::from_secs(ctx.tier.pick(300, 300)));
         }
     }
     ctx.assume("counters are compared as offsets from each key's random start; starts within 2^20 of a byte-carry boundary are not forced here (C04 covers the carry arithmetic)");
